@@ -16,6 +16,7 @@ alone and queued behind a request that is timing out.  No SPACK/GETWC/SETWC/REQR
 from __future__ import annotations
 
 import itertools
+import os
 
 from .. import core, explore, lib
 from ..peers import SPA_ADDR, SPA_ID, unframe
@@ -127,6 +128,19 @@ def _engine_run(ch, callers, offsets, R, window, faulty_verbs, fixed=None, noise
 
     rig.net.fates = fates
     mark = len(rig.net.sent)
+    # what becomes visible to the waiters, and when: every item put on the connection's receive queue (wrapped datagrams
+    # and the contents the packet consumer puts back), with the queue length it found
+    puts = []
+    q_ = rig.spa._protocol.queue
+    put0 = q_.put_nowait
+
+    def put_logged(item):
+        puts.append((rig.loop.time(), bytes(item[0]), q_.qsize()))
+        return put0(item)
+
+    q_.put_nowait = put_logged
+    if os.environ.get("GECKOMC_DBG"):
+        rig._dbg_puts = puts
     if noise is not None:
         # unrelated, unsolicited traffic from the spa landing near a timeout instant
         from ..peers import frame
@@ -216,6 +230,15 @@ def _engine_run(ch, callers, offsets, R, window, faulty_verbs, fixed=None, noise
                     if any(a[1] == who and w[2] <= a[0] <= w[3] - 0.35 for a in arrived):
                         why = ("missed-reply", f"{who}: reported failure although a reply arrived during its wait "
                                                f"[{w[2]-t_base:.2f},{w[3]-t_base:.2f}]")
+                # sharper, on the default schedule: the reply's CONTENT was put at the head of an empty queue during the
+                # waiter's final polling period - nobody else can have removed it (the discarding consumer needs a whole
+                # period after marking it), so it is there at the waiter's last look
+                if why is None and not t_closed and stall == 0.0 and not any(c for k_, n_, c in ch.trace):
+                    for w in myw:
+                        if not w[4] and any(w[3] - POLL + 1e-6 < t_ < w[3] - 1e-6 and n_ == 0 and d_.startswith(REP[who])
+                                            and not (who == "ping" and len(d_) == 5) for (t_, d_, n_) in puts):
+                            why = ("missed-reply", f"{who}: reported failure although its reply was at the head of the receive queue "
+                                                   f"before the last look of its wait [{w[2]-t_base:.2f},{w[3]-t_base:.2f}]")
             # completion bound
             if myw:
                 start = myw[0][2]
@@ -286,9 +309,10 @@ def _stall_job(job):
 
 
 def _latency_job(job):
-    who, d = job
+    who, d = job[:2]
+    off = job[2] if len(job) > 2 else 0.0  # the call starts off the pollers' common grid
     lib.reset_library()
-    return _engine_run(Chooser(), (who,), (0.0,), 1, 0.0, (who,), fixed=f"delay:{d}")
+    return _engine_run(Chooser(), (who,), (off,), 1, 0.0, (who,), fixed=f"delay:{d}")
 
 
 # ------------------------------------------------------------------------------------------
@@ -690,12 +714,15 @@ def run(ctx):
     # A5: slow replies: every reply latency on a 50 ms grid inside the time-out, one caller (a reply that arrives well
     # inside the wait is the caller's reply: it must be returned, not reported as a failure)
     lat = [round(0.05 * i, 2) for i in range(1, 72)]
-    ljobs = [(who, d) for who in ("version", "ping") for d in (lat if not ctx.quick else lat[::2])]
-    for (why, obs), (who, d) in zip(core.pmap(ctx, _latency_job, ljobs, chunksize=4), ljobs):
+    # ... and right up to the time-out: a reply that is there at the last look before the time-out counts
+    near = [3.6, 3.7, 3.8, 3.85, 3.9, 3.92, 3.95, 3.97, 3.99]
+    ljobs = [(who, d) for who in ("version", "ping") for d in (lat if not ctx.quick else lat[::2]) + near]
+    ljobs += [(who, d, off) for who in ("version", "ping", "press") for d in near for off in (0.03, 0.07)]
+    for (why, obs), (who, d, *off_) in zip(core.pmap(ctx, _latency_job, ljobs, chunksize=4), ljobs):
         states.add(obs)
         if why:
             ctx.violation(f"C06|engine|{why[0]}|slow-reply|{who}", f"{who} answered once after {d:.2f}s: {why[1]}",
-                          {"mode": "latency", "who": who, "delay": d})
+                          {"mode": "latency", "who": who, "delay": d, "offset": off_[0] if off_ else 0.0})
     ctx.set("slow_reply_runs", len(ljobs))
     execs += len(ljobs)
 
@@ -786,7 +813,7 @@ def replay(ctx, data):
         if why:
             ctx.violation(f"C06|engine|{why[0]}|stalled-loop|{data['job'][0]}", why[1], data)
     elif m == "latency":
-        why, _ = _latency_job((data["who"], data["delay"]))
+        why, _ = _latency_job((data["who"], data["delay"], data.get("offset", 0.0)))
         if why:
             ctx.violation(f"C06|engine|{why[0]}|slow-reply|{data['who']}", why[1], data)
     elif m == "R10":
